@@ -19,7 +19,13 @@ ASSUMPTIONS = [
 ]
 
 
-def gen_row(rng, n):
+def gen_row(rng, n, interior=False):
+    if interior:        # every label has probability >= 1/8: draws that share a key are visibly dependent
+        extra = [rng.randint(0, 8 - n) for _ in range(n - 1)]
+        w = [1 + x for x in extra]
+        w.append(max(1, 8 - sum(w)))
+        tot = sum(w)
+        return [Fraction(x, tot) for x in w]
     r = rng.random()
     if r < 0.2:
         row = [Fraction(0)] * n
@@ -85,7 +91,7 @@ def fam_draws(rng, n):
                  "carry keys[0], variable j uses keys[1+j] split per agent) from the transition row the Spec "
                  "selects; must equal lcm's panel exactly; same seed twice gives identical frames; another seed "
                  "leaves period 0 unchanged; non-trivial = >= 2 periods and a non-degenerate row")
-    cases = e2e.gen_cases(rng, n, fn="simulate", allow_state_exclusion=False, features=[{"stochastic"}, {"stochastic", "filter"}, {"stochastic", "constraint"}])
+    cases = e2e.gen_cases(rng, n, fn="simulate", allow_state_exclusion=False, features=[{"stochastic"}, {"two_stochastic"}, {"stochastic", "filter"}, {"stochastic", "constraint"}])
     wcases = []
     for c in cases:
         w = e2e.wire(c)
@@ -183,7 +189,9 @@ def fam_frequencies(rng, n_models, n_agents):
     for k in range(n_models):
         ns = rng.choice([2, 3])
         nd = rng.choice([2, 3])
-        rows = [gen_row(rng, ns) for _ in range(nd * ns)]
+        per = (k % 2 == 1)           # every second model: the transition also depends on the period (rows differ by period)
+        rows_by_t = [[gen_row(rng, ns) for _ in range(nd * ns)] for _ in range(3 if per else 1)]
+        rows = rows_by_t[0]
         py = f"""import jax.numpy as jnp
 from dataclasses import make_dataclass, field
 import lcm
@@ -196,7 +204,7 @@ def utility(h, d, c):
     return h + d + 0.5 * c
 
 @lcm.mark.stochastic
-def next_h(d, h):
+def next_h({"_period, " if per else ""}d, h):
     pass
 
 def next_d(d):
@@ -206,19 +214,20 @@ MODEL = Model(n_periods=3, functions={{'utility': utility, 'next_h': next_h, 'ne
               choices={{'c': D(2)}}, states={{'h': D({ns}), 'd': D({nd})}})
 """
         params = {"beta": 1, "fpar": [["utility", []], ["next_h", []], ["next_d", []]],
-                  "shocks": [["h", {"shape": [nd, ns, ns], "data": [q(x) for r in rows for x in r]}]]}
+                  "shocks": [["h", {"shape": ([3] if per else []) + [nd, ns, ns],
+                                    "data": [q(x) for rt in rows_by_t for r in rt for x in r]}]]}
         init_h = [a % ns for a in range(n_agents)]
         init_d = [(a // ns) % nd for a in range(n_agents)]
         cases.append({"fn": "simulate_stats", "py": py, "params": params, "seed": rng.randint(0, 10 ** 6),
                       "initial_states": [["h", init_h], ["d", init_d]], "discrete": {"h": True, "d": True},
-                      "_rows": rows, "_ns": ns, "_nd": nd})
+                      "_rows": rows_by_t, "_ns": ns, "_nd": nd})
     ires = run_impl([{k: v for k, v in c.items() if not k.startswith("_")} for c in cases], nproc=min(4, len(cases)))
     for c, i in zip(cases, ires):
         fam.count({"py": c["py"], "seed": c["seed"]})
         if isinstance(i, dict) and "error" in i:
             fam.violations.append({"case": {k: v for k, v in c.items() if not k.startswith("_")}, "impl": i, "what": "simulation raised"})
             continue
-        ns, nd, rows = c["_ns"], c["_nd"], c["_rows"]
+        ns, nd, rows_by_t = c["_ns"], c["_nd"], c["_rows"]
         h = [int(unq(x)) for x in i["columns"]["h"]]
         d = [int(unq(x)) for x in i["columns"]["d"]]
         na = len(h) // 3
@@ -228,6 +237,7 @@ MODEL = Model(n_periods=3, functions={{'utility': utility, 'next_h': next_h, 'ne
             for a in range(na):
                 key = (d[t * na + a], h[t * na + a])
                 counts.setdefault(key, [0] * ns)[h[(t + 1) * na + a]] += 1
+            rows = rows_by_t[t] if len(rows_by_t) > 1 else rows_by_t[0]       # the row of the period the agents are IN
             for (dv, hv), cnt in counts.items():
                 row = rows[dv * ns + hv]
                 tot = sum(cnt)
@@ -276,10 +286,91 @@ MODEL = Model(n_periods=3, functions={{'utility': utility, 'next_h': next_h, 'ne
     return fam
 
 
+
+def fam_variable_independence(rng, n_models, n_agents):
+    fam = Family("independence_across_variables",
+                 f"models with TWO stochastic states whose names are health and bad_health (one a suffix of the "
+                 f"other), {n_agents} agents, 2 periods: given the current pair, the next labels of the two states "
+                 "must be independent (chi-square on the contingency table, alarm at p < 1e-9); all non-trivial")
+    cases = []
+    for k in range(n_models):
+        n1, n2 = rng.choice([2, 3]), rng.choice([2, 3])
+        rows1 = [gen_row(rng, n1, interior=True) for _ in range(n1)]
+        rows2 = [gen_row(rng, n2, interior=True) for _ in range(n2)]
+        py = f"""import jax.numpy as jnp
+from dataclasses import make_dataclass, field
+import lcm
+from lcm import Model, DiscreteGrid
+
+def D(n):
+    return DiscreteGrid(make_dataclass('C', [(f'c{{i}}', int, field(default=i)) for i in range(n)]))
+
+def utility(health, bad_health, c):
+    return health + 2 * bad_health + 0.5 * c
+
+@lcm.mark.stochastic
+def next_health(health):
+    pass
+
+@lcm.mark.stochastic
+def next_bad_health(bad_health):
+    pass
+
+MODEL = Model(n_periods=2, functions={{'utility': utility, 'next_health': next_health, 'next_bad_health': next_bad_health}},
+              choices={{'c': D(2)}}, states={{'health': D({n1}), 'bad_health': D({n2})}})
+"""
+        params = {"beta": 1, "fpar": [["utility", []], ["next_health", []], ["next_bad_health", []]],
+                  "shocks": [["health", {"shape": [n1, n1], "data": [q(x) for r in rows1 for x in r]}],
+                             ["bad_health", {"shape": [n2, n2], "data": [q(x) for r in rows2 for x in r]}]]}
+        init1 = [a % n1 for a in range(n_agents)]
+        init2 = [(a // n1) % n2 for a in range(n_agents)]
+        cases.append({"fn": "simulate_stats", "py": py, "params": params, "seed": rng.randint(0, 10 ** 6),
+                      "initial_states": [["health", init1], ["bad_health", init2]],
+                      "discrete": {"health": True, "bad_health": True}, "_n1": n1, "_n2": n2})
+    ires = run_impl([{k: v for k, v in c.items() if not k.startswith("_")} for c in cases], nproc=min(4, len(cases)))
+    for c, i in zip(cases, ires):
+        fam.count({"py": c["py"], "seed": c["seed"]})
+        if isinstance(i, dict) and "error" in i:
+            fam.violations.append({"case": {k: v for k, v in c.items() if not k.startswith("_")}, "impl": i, "what": "simulation raised"})
+            continue
+        n1, n2 = c["_n1"], c["_n2"]
+        h = [int(unq(x)) for x in i["columns"]["health"]]
+        b = [int(unq(x)) for x in i["columns"]["bad_health"]]
+        na = len(h) // 2
+        bad = None
+        tabs = {}
+        for a in range(na):
+            t = tabs.setdefault((h[a], b[a]), [[0] * n2 for _ in range(n1)])
+            t[h[na + a]][b[na + a]] += 1
+        for key, t in tabs.items():
+            rt = [sum(r) for r in t]
+            ct = [sum(t[x][y] for x in range(n1)) for y in range(n2)]
+            gt = sum(rt)
+            if gt < 200:
+                continue
+            x2 = 0.0
+            for x in range(n1):
+                for y in range(n2):
+                    e = rt[x] * ct[y] / gt
+                    if e > 0:
+                        x2 += (t[x][y] - e) ** 2 / e
+            df = (sum(1 for r in rt if r > 0) - 1) * (sum(1 for c_ in ct if c_ > 0) - 1)
+            if df > 0 and chi2_sf_bound(x2, df):
+                bad = (f"given (health, bad_health) = {key} the next labels of the two stochastic states are dependent: "
+                       f"contingency table {t} (chi2={x2:.1f}, df={df})")
+                break
+        if bad:
+            fam.violations.append({"case": {k: v for k, v in c.items() if not k.startswith("_") and k != "initial_states"}, "what": bad})
+        else:
+            fam.tolerant += 1
+    return fam
+
+
 def run(tier, seed):
     rng = random.Random(seed * 7919 + 4)
     k = 1 if tier == "quick" else 12
-    return [fam_choice(rng, 60 * k), fam_draws(rng, 12 * k), fam_frequencies(rng, 2 if tier == "quick" else 8, 6000 if tier == "quick" else 24000)]
+    return [fam_choice(rng, 60 * k), fam_draws(rng, 12 * k), fam_frequencies(rng, 2 if tier == "quick" else 8, 6000 if tier == "quick" else 24000),
+            fam_variable_independence(rng, 2 if tier == "quick" else 6, 6000 if tier == "quick" else 24000)]
 
 
 def matches_signature(entry, item):
